@@ -63,10 +63,10 @@ def witness_status(path, build='asan'):
     hdr = {}
     for line in open(path):
         w = line.split(None, 1)
-        if len(w) == 2 and w[0] in ('property', 'config', 'code', 'runner', 'view'):
+        if len(w) == 2 and w[0] in ('property', 'config', 'code', 'runner', 'view', 'build'):
             hdr[w[0]] = w[1].strip()
     cfg = cfggen.parse_name(hdr['config'])
-    b = core.Builder(tag=build)
+    b = core.Builder(tag=hdr.get('build', build))
     built = b.build_all([cfg])
     binp, log = built[cfg['name']]
     if binp is None:
